@@ -258,6 +258,13 @@ func checkC07(r *Result, rng *rand.Rand, thorough bool) {
 		for _, l := range []string{"/d/up", "/abs", "/ok"} {
 			c.Reqs = append(c.Reqs, c07Req{Proc: "readlink", Dir: l})
 		}
+		// links that were in the backend before the export (the server would not have created them): every shape
+		// of a relative target with a '..' component, and harmless look-alikes
+		pre := []string{"..", "../", "../..", "a/..", "./..", "a/../b", "../a", "..a", "a..", "...", "a/..b", "a/b/../../..", "./a", "a/./b"}
+		for i, t := range pre {
+			c.Seed = append(append([]string{}, c.Seed...), fmt.Sprintf("link /d/p%d %s", i, t))
+			c.Reqs = append(c.Reqs, c07Req{Proc: "readlink", Dir: fmt.Sprintf("/d/p%d", i)})
+		}
 		for i := range targets {
 			c.Reqs = append(c.Reqs, c07Req{Proc: "readlink", Dir: fmt.Sprintf("/d/s%d", i)})
 		}
